@@ -126,6 +126,65 @@ theorem ofixDirect_spec (I : Interp Val) (gi : List VId) : ∀ (outs : List VId)
       simp only [List.map_cons]
       exact ⟨by rw [h1, h2 o ho], h2⟩
 
+/-- the order of the initializer list is irrelevant when the ids are distinct -/
+theorem evalG_inits_equiv (I : Interp Val) (inputs outputs : List VId) (inits inits' : List (VId × Tensor))
+    (nodes : List Node) (hnd : (inits.map Prod.fst).Nodup) (hnd' : (inits'.map Prod.fst).Nodup)
+    (hmem : ∀ p, p ∈ inits' ↔ p ∈ inits) (ρ : Env Val) :
+    evalG I (.mk inputs outputs inits' nodes) ρ = evalG I (.mk inputs outputs inits nodes) ρ := by
+  funext xs
+  simp only [evalG]
+  have hids : ∀ v, v ∈ inits'.map Prod.fst ↔ v ∈ inits.map Prod.fst := by
+    intro v
+    simp only [List.mem_map]
+    constructor
+    · rintro ⟨p, hp, rfl⟩; exact ⟨p, (hmem p).1 hp, rfl⟩
+    · rintro ⟨p, hp, rfl⟩; exact ⟨p, (hmem p).2 hp, rfl⟩
+  have hfree : inputs.filter (fun v => !(inits'.map Prod.fst).contains v)
+      = inputs.filter (fun v => !(inits.map Prod.fst).contains v) := by
+    apply List.filter_congr
+    intro v _
+    congr 1
+    rw [Bool.eq_iff_iff]
+    simp only [List.contains_iff_mem]
+    exact hids v
+  rw [hfree]
+  have henv : bindInits I ρ inits' = bindInits I ρ inits := by
+    funext v
+    simp only [bindInits]
+    by_cases hv : v ∈ inits.map Prod.fst
+    · obtain ⟨p, hp, rfl⟩ := List.mem_map.1 hv
+      rw [Env.bind_map_of_mem ρ Prod.fst (fun p => some (I.tv p.2)) _ p hnd hp,
+        Env.bind_map_of_mem ρ Prod.fst (fun p => some (I.tv p.2)) _ p hnd' ((hmem p).2 hp)]
+    · rw [Env.bind_of_not_mem _ _ hv, Env.bind_of_not_mem _ _ (fun h => hv ((hids v).1 h))]
+  rw [henv]
+
+theorem moveToEnd_mem (o : VId) (l : List (VId × Tensor)) (p : VId × Tensor) :
+    p ∈ moveToEnd o l ↔ p ∈ l := by
+  simp only [moveToEnd, List.mem_append, List.mem_filter]
+  constructor
+  · rintro (h | h) <;> exact h.1
+  · intro h
+    by_cases hp : (p.1 != o) = true
+    · exact Or.inl ⟨h, hp⟩
+    · exact Or.inr ⟨h, by simpa using hp⟩
+
+theorem moveToEnd_nodup (o : VId) (l : List (VId × Tensor)) (h : (l.map Prod.fst).Nodup) :
+    ((moveToEnd o l).map Prod.fst).Nodup := by
+  have hp : List.Perm (moveToEnd o l) l := by
+    simp only [moveToEnd]
+    exact List.filter_append_perm _ l
+  exact (hp.map Prod.fst).nodup_iff.2 h
+
+theorem foldl_moveToEnd (F : List VId) : ∀ (l : List (VId × Tensor)), (l.map Prod.fst).Nodup →
+    ((F.foldl (fun acc o => moveToEnd o acc) l).map Prod.fst).Nodup ∧
+    ∀ p, p ∈ F.foldl (fun acc o => moveToEnd o acc) l ↔ p ∈ l := by
+  induction F with
+  | nil => intro l h; exact ⟨h, fun _ => Iff.rfl⟩
+  | cons o F ih =>
+    intro l h
+    obtain ⟨h1, h2⟩ := ih (moveToEnd o l) (moveToEnd_nodup o l h)
+    exact ⟨h1, fun p => (h2 p).trans (moveToEnd_mem o l p)⟩
+
 mutual
 theorem ofixG_mono (gi : List VId) : ∀ (g : Graph) (next : Nat), next ≤ (ofixG gi next g).2
   | .mk inputs outputs inits nodes, next => by
@@ -145,15 +204,21 @@ theorem ofixBodies_mono (gi : List VId) : ∀ (bs : List Graph) (next : Nat), ne
 end
 
 mutual
-theorem ofixG_sound (I : Interp Val) (gi : List VId) : ∀ (g : Graph) (next : Nat),
+theorem ofixG_sound (I : Interp Val) (gi : List VId) : ∀ (g : Graph) (next : Nat), ssaG g = true →
     (∀ v ∈ boutsG g, v < next) → ∀ ρ : Env Val, evalG I (ofixG gi next g).1 ρ = evalG I g ρ
-  | .mk inputs outputs inits nodes, next, hb, ρ => by
+  | .mk inputs outputs inits nodes, next, hs, hb, ρ => by
+    simp only [ssaG, Bool.and_eq_true, nodupB_iff] at hs
+    obtain ⟨hnd1, hmem1⟩ := foldl_moveToEnd
+      (fixedInputs (ofixDirect gi (ofixMulti [] outputs (ofixNodes gi next nodes).2).1
+        (ofixMulti [] outputs (ofixNodes gi next nodes).2).2.2).2.1) inits hs.1.1.2
+    simp only [ofixG]
+    rw [evalG_inits_equiv I _ _ inits _ _ hs.1.1.2 hnd1 hmem1]
     funext xs
     have hbo : ∀ v ∈ outputs, v < next := fun v hv => hb v (by simp [boutsG, hv])
     have hbn : ∀ v ∈ boutsNodes nodes, v < next := fun v hv => hb v (by simp [boutsG, hv])
     have hm := ofixNodes_mono gi nodes next
-    simp only [ofixG, evalG, evalNodes_append]
-    rw [ofixNodes_sound I gi nodes next hbn]
+    simp only [evalG, evalNodes_append]
+    rw [ofixNodes_sound I gi nodes next hs.2 hbn]
     have ho1 : ∀ o ∈ outputs, o < (ofixNodes gi next nodes).2 := fun o ho => Nat.lt_of_lt_of_le (hbo o ho) hm
     obtain ⟨h1, _⟩ := ofixMulti_spec I outputs [] (ofixNodes gi next nodes).2
       (evalNodes I nodes ((bindInits I ρ inits).bind
@@ -165,21 +230,23 @@ theorem ofixG_sound (I : Interp Val) (gi : List VId) : ∀ (g : Graph) (next : N
           (inputs.filter (fun v => !(inits.map Prod.fst).contains v)) (xs.map some))))
       (ofixMulti_lt outputs [] _ ho1)
     rw [h3, h1]
-theorem ofixNodes_sound (I : Interp Val) (gi : List VId) : ∀ (ns : List Node) (next : Nat),
+theorem ofixNodes_sound (I : Interp Val) (gi : List VId) : ∀ (ns : List Node) (next : Nat), ssaNodes ns = true →
     (∀ v ∈ boutsNodes ns, v < next) → ∀ ρ : Env Val, evalNodes I (ofixNodes gi next ns).1 ρ = evalNodes I ns ρ
-  | [], _, _, _ => by simp [ofixNodes]
-  | .mk op attrs ins outs bodies :: ns, next, hb, ρ => by
+  | [], _, _, _, _ => by simp [ofixNodes]
+  | .mk op attrs ins outs bodies :: ns, next, hs, hb, ρ => by
+    simp only [ssaNodes, ssaN, Bool.and_eq_true] at hs
     simp only [ofixNodes, evalNodes, evalN]
-    rw [ofixBodies_sound I gi bodies next (fun v hv => hb v (by simp [boutsNodes, boutsN, hv])) ρ]
-    exact ofixNodes_sound I gi ns _ (fun v hv => Nat.lt_of_lt_of_le
+    rw [ofixBodies_sound I gi bodies next hs.1.1.2 (fun v hv => hb v (by simp [boutsNodes, boutsN, hv])) ρ]
+    exact ofixNodes_sound I gi ns _ hs.2 (fun v hv => Nat.lt_of_lt_of_le
       (hb v (by simp [boutsNodes, hv])) (ofixBodies_mono gi bodies next)) _
-theorem ofixBodies_sound (I : Interp Val) (gi : List VId) : ∀ (bs : List Graph) (next : Nat),
+theorem ofixBodies_sound (I : Interp Val) (gi : List VId) : ∀ (bs : List Graph) (next : Nat), ssaBodies bs = true →
     (∀ v ∈ boutsBodies bs, v < next) → ∀ ρ : Env Val, evalBodies I (ofixBodies gi next bs).1 ρ = evalBodies I bs ρ
-  | [], _, _, _ => by simp [ofixBodies]
-  | b :: bs, next, hb, ρ => by
+  | [], _, _, _, _ => by simp [ofixBodies]
+  | b :: bs, next, hs, hb, ρ => by
+    simp only [ssaBodies, Bool.and_eq_true] at hs
     simp only [ofixBodies, evalBodies]
-    rw [ofixG_sound I gi b next (fun v hv => hb v (by simp [boutsBodies, hv])) ρ,
-      ofixBodies_sound I gi bs _ (fun v hv => Nat.lt_of_lt_of_le
+    rw [ofixG_sound I gi b next hs.1.1 (fun v hv => hb v (by simp [boutsBodies, hv])) ρ,
+      ofixBodies_sound I gi bs _ hs.2 (fun v hv => Nat.lt_of_lt_of_le
         (hb v (by simp [boutsBodies, hv])) (ofixG_mono gi b next)) ρ]
 end
 
